@@ -16,7 +16,7 @@ func Flatten(l *LTS, machines map[string]*LTS) (*LTS, []string) {
 		}
 	}
 	type ik struct {
-		mach             string
+		mach           string
 		ms, then, fail int
 	}
 	ids := map[ik]int{}
